@@ -118,7 +118,7 @@ def shift_x_set(w, rnd, nrand):
 class Sets:
     def __init__(self, sd, thorough):
         rnd = random.Random(1000003 * sd + 17)
-        nr = 36 if thorough else 3
+        nr = 28 if thorough else 3
         self.bin = {w: boundary(w, rnd, nr) for w in WIDTHS}
         self.conv = dict(self.bin)
         self.conv[8] = list(range(256))               # every 8-bit source value
@@ -193,6 +193,14 @@ def job_equiv(w, vs, cs8, cs16, name, workers=6):
     return {"name": name, "base": "BVEquiv", "kind": "equiv",
             "defs": {"c_VS": q(vs), "c_CS8": q(cs8), "c_CS16": q(cs16)}, "consts": {"W": str(w)},
             "invariants": ["Arith", "DivRem", "Bits", "Cmp", "Shifts", "Convs", "RoundTrip"], "workers": workers}
+
+
+def job_lower(cmp_first, sets, name):
+    q = lambda l: "{" + ", ".join(map(str, l)) + "}"
+    return {"name": name, "base": "LowerImpl", "kind": "lower",
+            "defs": {"c_XS": "(8 :> 0..255) @@ (16 :> %s)" % q(sets.bin[16]),
+                     "c_CSet": "(8 :> %s) @@ (16 :> %s)" % (q(count_set(8)), q(count_set(16)))},
+            "consts": {"CmpFirst": "TRUE" if cmp_first else "FALSE"}, "invariants": ["ShiftRefines", "DivRefines"], "workers": 4}
 
 
 # --------------------------------------------------------------------------- expected tables (parsed TLC output)
@@ -760,7 +768,8 @@ def check(chk):
                 job_table({"shift": SHAPES}, sets, "shift", workers=6), job_table({"conv": SHAPES}, sets, "conv", workers=4),
                 job_float(["float", "int"], fdom, "float", workers=6), job_float(["complex"], fdom, "complex", workers=6),
                 job_equiv(8, eq8, cs8, cs16, "equiv8", workers=8),
-                job_equiv(16, sets.bin[16], count_set(8), cs16, "equiv16", workers=6)]
+                job_equiv(16, sets.bin[16], count_set(8), cs16, "equiv16", workers=6),
+                job_lower(True, sets, "lowerCmpFirst"), job_lower(False, sets, "lowerCmpAfter")]
     else:
         jobs = [job_sweep(sweep_ops, workers=6),
                 job_table({"bin": [sh for sh in SHAPES if sh[0] == 64]}, sets, "bin64", workers=6),
@@ -775,6 +784,10 @@ def check(chk):
     for j, fu in futs:
         res = fu.result()
         chk.add_tlc(res, j["base"] + "/" + j["name"])
+        if j["kind"] == "lower":
+            # layer B never judges: report whether the modelled lowering refines the spec
+            chk.cov.setdefault("impl_model", []).append({"cfg": j["name"], "refines_IntOps": res.ok, "violation": res.violation})
+            continue
         if not res.ok:
             raise C.Undecided("%s/%s: the specification's own cross-checks failed in TLC (spec defect, nothing was judged): %s\n%s"
                               % (j["base"], j["name"], res.violation, res.out[-1500:]))
@@ -860,7 +873,7 @@ def check(chk):
             got, gsw = first.result()
         else:
             got, gsw = run_cases(exe, allcases, par=8), run_sweeps(exe, plan, par=8)
-        C.log("%s run: %d cases + %d sweeps in %.1fs" % (cfg, len(allcases), len(plan), time.time() - t0))
+        C.log("%s run: %d cases + %d sweeps done (%.1fs after the previous step)" % (cfg, len(allcases), len(plan), time.time() - t0))
         failing = {}     # function name -> (count, first description, replay)
         undecided = 0
 
